@@ -9,6 +9,7 @@ import (
 	"github.com/emitter-io/emitter/internal/event"
 	"github.com/emitter-io/emitter/internal/event/crdt"
 	"github.com/emitter-io/emitter/internal/message"
+	"github.com/emitter-io/emitter/internal/security"
 	"github.com/emitter-io/emitter/verifsim/kernel"
 )
 
@@ -83,9 +84,25 @@ func evKey(ev event.Event) string {
 	return fmt.Sprintf("%d|%s", event.VerifTypeOf(ev), ev.Key())
 }
 
+// readReplica reads a replica's entries; a replica that cannot even be walked (its entries point
+// into memory that was recycled, say) has certainly not the entries it should have.
+func (w *crWorld) readReplica(r *crReplica, when string) (out crContent) {
+	defer func() {
+		if x := recover(); x != nil {
+			w.c.Check("entry", r.kind+" "+when+" unreadable", "r%d (%s) after %s: walking its entries panicked: %v", r.idx, r.kind, when, x)
+			out = crContent{}
+		}
+	}()
+	return readState(r.st)
+}
+
 func readState(st *event.State) crContent {
 	out := crContent{}
 	st.VerifAll(func(typ uint8, key string, v event.Value) {
+		if len(v) < 16 { // not a value at all (recycled memory): shows as an entry nobody ever wrote
+			out[fmt.Sprintf("%d|%s", typ, key)] = crEnt{-1, -1}
+			return
+		}
 		out[fmt.Sprintf("%d|%s", typ, key)] = crEnt{v.AddTime(), v.DelTime()}
 	})
 	return out
@@ -106,6 +123,15 @@ func newCRWorld(c *kernel.Ctx, checkDelta bool) *crWorld {
 	w.names = []string{"sub1", "sub2", "sub3", "ban1", "ban2", "conn1", "conn2"}
 	nev := t.Range(2, len(w.events))
 	w.events, w.names = w.events[:nev], w.names[:nev]
+	if t.Chance(1, 5) {
+		// a large state: snapshots and combined deltas of more than a kilobyte (buffer sizes in the
+		// decode path are crossed only by states of dozens of entries)
+		for i := 0; i < 40; i++ {
+			w.events = append(w.events, &event.Subscription{Peer: uint64(1 + i%3), Conn: security.ID(100 + i), Ssid: message.Ssid{1, uint32(10 + i%7), uint32(i)}, Channel: []byte(fmt.Sprintf("big/%d/%d/", i%7, i))})
+			w.names = append(w.names, fmt.Sprintf("big%d", i))
+		}
+		c.Probe("large-state-over-1KiB")
+	}
 	for i, ev := range w.events {
 		w.keyOf[evKey(ev)] = i
 	}
@@ -361,7 +387,7 @@ func (w *crWorld) verify(r *crReplica, when string) {
 	if w.checkDelta {
 		return // the C13 campaign checks deltas only; C04 owns state equality
 	}
-	got := readState(r.st)
+	got := w.readReplica(r, when)
 	if !sameContent(got, r.model) {
 		for k, e := range r.model {
 			if got[k] != e {
@@ -457,9 +483,9 @@ func runCRDT(c *kernel.Ctx, checkDelta bool) {
 		}
 	}
 	if !checkDelta {
-		ref := readState(w.reps[0].st)
+		ref := w.readReplica(w.reps[0], "the final exchange")
 		for _, r := range w.reps[1:] {
-			if got := readState(r.st); !sameContent(ref, got) {
+			if got := w.readReplica(r, "the final exchange"); !sameContent(ref, got) {
 				c.Check("final", r.kind, "after two all-to-all exchanges r0 (%s) holds%s but r%d (%s) holds%s", w.reps[0].kind, w.fmtContent(ref), r.idx, r.kind, w.fmtContent(got))
 			}
 		}
